@@ -27,6 +27,14 @@ impl Lint for MustUseLint {
         let mut diagnostics = Vec::new();
 
         for (_, function_call_stmt) in scope_manager.function_calls.iter() {
+            // The function being called is script defined, not the standard library's
+            if scope_manager.references[function_call_stmt.initial_reference]
+                .resolved
+                .is_some()
+            {
+                continue;
+            }
+
             let function_behavior =
                 match standard_library.find_global(&function_call_stmt.call_name_path) {
                     Some(Field {
